@@ -77,3 +77,5 @@ package segment
 //@   ensures imp(result1 == nil, off == len(msgPayload) && nsent == top + 1)
 //@   ensures imp(len(msgPayload) / maxPayloadSize > 65535, result1 != nil && nsent == 0)
 //@   loop 1 invariant nsent == segIdx && 0 <= segIdx && segIdx <= maxSegIdx + 1 && off == ite(segIdx <= maxSegIdx, segIdx * maxPayloadSize, len(msgPayload)) && maxSegIdx == len(msgPayload) / maxPayloadSize && maxSegIdx <= 65535 && imp(nsent > 0, top == maxSegIdx)
+
+//@ guarded[C09] ReadBuffers.Mutex: ReadBuffer
